@@ -24,16 +24,28 @@ from pv import ctx, findings  # noqa: E402
 
 ctx.ACTIVE = frozenset(findings.determine_active("C11", c11, quiet=True))
 ALPHABET = "()ab ?x;\n\t\r-:B_1"
+COMMENT_CHARS = c11.COMMENT_ALPHA
 STATS = {"executions": 0, "nontrivial": 0, "found": {}, "t0": time.time(), "samples": []}
 SEEN = set()
 
 
 def decode(data: bytes) -> str:
-    # two decoders share the byte stream: small-alphabet mapping (structure-dense) or printable ASCII
+    # three decoders share the byte stream: small-alphabet mapping (structure-dense), printable ASCII, comment-rich
     if not data:
         return ""
-    if data[0] & 1:
+    if data[0] % 3 == 1:
         return "".join(ALPHABET[b % len(ALPHABET)] for b in data[1:])
+    if data[0] % 3 == 2:
+        # printable ASCII outside comments, any character (but a line end) inside them
+        out, in_comment = [], False
+        for b in data[1:]:
+            if in_comment:
+                c = "\n" if b == 10 else COMMENT_CHARS[b % len(COMMENT_CHARS)]
+            else:
+                c = chr(b) if 32 <= b < 127 or b in (9, 10) else " "
+            in_comment = (in_comment or c == ";") and c != "\n"
+            out.append(c)
+        return "".join(out)
     return "".join(chr(b) if 32 <= b < 127 or b in (9, 10, 13) else " " for b in data[1:])
 
 
